@@ -193,7 +193,9 @@ def pick(rng, boundary, bits):
 
 
 def std_script(rng, kind=None):
-    kind = kind or rng.choice(["p2pkh", "p2sh", "p2wpkh", "p2wsh", "p2tr", "multisig", "opreturn", "rand"])
+    kind = kind or rng.choice(["p2pkh", "p2sh", "p2wpkh", "p2wsh", "p2tr", "multisig", "opreturn", "rand", "witness_vn"])
+    if kind == "witness_vn":      # witness programs of every version 0..16 and of lengths on and off the defined ones
+        return [rng.choice([0] + list(range(0x51, 0x61))), rand_bytes(rng, rng.choice([32, 32, 20, 2, 40, 33]))]
     if kind == "p2pkh":
         return [0x76, 0xA9, rand_bytes(rng, 20), 0x88, 0xAC]
     if kind == "p2sh":
@@ -280,7 +282,9 @@ def _gen_txout(rng, tier):
 
 
 # ---------------------------------------------------------------------------- TxIn / TxOut
-SIG_SHAPES = {"push": [PUSH], "empty": [], "push_push": [PUSH, PUSH], "op_push_op": [OPCODE, PUSH, OPCODE]}
+# "op_push" is the shape of every witness program (OP_n <program>), present and future versions (seed C04-E: is_p2tr true for
+# every non-zero version, so ScriptPubKey.parse rebuilt OP_2..OP_16 <32 bytes> as OP_1 <32 bytes>)
+SIG_SHAPES = {"push": [PUSH], "empty": [], "push_push": [PUSH, PUSH], "op_push_op": [OPCODE, PUSH, OPCODE], "op_push": [OPCODE, PUSH]}
 for _nm, _shape in SIG_SHAPES.items():
     contract(H + "txin_ser#" + _nm, props=("C04",), params={"i": ntxin(_shape)},
              ensures=["returns()", "implies(returns(), result == spec.txwire.txin_ser(i))"],
